@@ -166,6 +166,15 @@ func (lp *logProcessor[INPUT, OUTPUT]) forgeLog(
 		if errors.Is(err, postgres.ErrDeadlockDetected) || errors.Is(err, ledgerstore.ErrIdempotencyKeyConflict{}) {
 			return lp.forgeLogRetry(ctx, store, parameters, fn)
 		}
+		// A concurrent request carrying the same idempotency key can have committed while
+		// this one was waiting on it (row lock, unique index). What this request then met
+		// while replaying the operation (already reverted, insufficient funds, ...) only
+		// reflects that the first one was applied: report its outcome, as a hit.
+		if parameters.IdempotencyKey != "" {
+			if log, output, fetchErr := lp.fetchLogWithIK(ctx, store, parameters); fetchErr == nil && output != nil {
+				return log, output, true, nil
+			}
+		}
 		return nil, nil, false, fmt.Errorf("unexpected error while forging log: %w", err)
 	}
 
@@ -210,6 +219,12 @@ func (lp *logProcessor[INPUT, OUTPUT]) forgeLogRetry(
 
 				return log, output, true, nil
 			default:
+				// same as in forgeLog: the key may have been committed by a concurrent request
+				if parameters.IdempotencyKey != "" {
+					if log, output, fetchErr := lp.fetchLogWithIK(ctx, store, parameters); fetchErr == nil && output != nil {
+						return log, output, true, nil
+					}
+				}
 				return nil, nil, false, fmt.Errorf("unexpected error while forging log: %w", err)
 			}
 		}
